@@ -40,7 +40,7 @@ mut('m-c03-len16-boundary', 'C03', 'lomond/frame.py', "        elif length < (1 
 mut('m-c03-mask-lane', 'C03', 'lomond/mask.py', "    data[3::4] = data[3::4].translate(d)\n", "    data[3::4] = data[3::4].translate(d if len(data) != 127 else c)\n",
     'wrong mask lane for one specific payload length')
 mut('m-c03-rsv1-on-uncompressed', 'C03', 'lomond/websocket.py',
-    "        else:\n            self.session.send(Opcode.TEXT, payload)\n", "        elif self.state.compression:\n            self.session.send_compressed(Opcode.TEXT, payload)\n        else:\n            self.session.send(Opcode.TEXT, payload)\n",
+    "        else:\n            self._get_session(state).send(Opcode.TEXT, payload)\n", "        elif state.compression:\n            self._get_session(state).send_compressed(Opcode.TEXT, payload)\n        else:\n            self._get_session(state).send(Opcode.TEXT, payload)\n",
     'compress=False text on a compressed connection goes out with RSV1 set but uncompressed')
 # ---- C04
 mut('m-c04-masked-accepted', 'C04', 'lomond/frame_parser.py', "        if frame.mask:\n", "        if frame.mask and frame.is_control:\n",
@@ -61,8 +61,8 @@ mut('m-c05-dfa-entry', 'C05', 'lomond/utf8validator.py', "    0xa, 0x3, 0x3, 0x3
 mut('m-c06-swapped-bits', 'C06', 'lomond/compression.py', '        decompress_wbits = cls.get_wbits(options, "server_max_window_bits")\n        compress_wbits = cls.get_wbits(options, "client_max_window_bits")\n',
     '        decompress_wbits = cls.get_wbits(options, "client_max_window_bits")\n        compress_wbits = cls.get_wbits(options, "server_max_window_bits")\n', 'server/client window bits swapped')
 mut('m-c06-no-reset-compress', 'C06', 'lomond/compression.py', "        if self.reset_compress:\n            self.reset_compressor()\n", "", 'client_no_context_takeover ignored')
-mut('m-c06-compress-false-ignored', 'C06', 'lomond/websocket.py', "        if compress and self.state.compression:\n            with self.state.compress_lock:\n                _payload = self.state.compression.compress(data)\n",
-    "        if self.state.compression:\n            with self.state.compress_lock:\n                _payload = self.state.compression.compress(data)\n", 'compress=False ignored for send_binary')
+mut('m-c06-compress-false-ignored', 'C06', 'lomond/websocket.py', "        if compress and state.compression:\n            with state.compress_lock:\n                _payload = state.compression.compress(data)\n",
+    "        if state.compression:\n            with state.compress_lock:\n                _payload = state.compression.compress(data)\n", 'compress=False ignored for send_binary')
 mut('m-c06-window-ignored', 'C06', 'lomond/compression.py', "            -max(9, self.compress_wbits)\n", "            -max(12, self.compress_wbits)\n", 'negotiated client window < 12 bits not honoured')
 # ---- C07
 mut('m-c07-poll-before-ready', 'C07', 'lomond/session.py', "            if self._ready:\n                return self._regular(\n", "            if self._ready or ping_timeout:\n                return self._regular(\n",
@@ -90,14 +90,14 @@ mut('m-c10-accept-prefix', 'C10', 'lomond/websocket.py', "        if accept_head
 mut('m-c10-key-not-fresh', 'C10', 'lomond/websocket.py', "            self.key = b64encode(os.urandom(16))\n", "            self.key = b64encode(os.urandom(16)) if not hasattr(WebSocket, '_k') else WebSocket._k\n            WebSocket._k = self.key\n", 'handshake key reused across connections')
 mut('m-c10-maxbytes', 'C10', 'lomond/frame_parser.py', "                b\"\\r\\n\\r\\n\", max_bytes=16 * 1024\n", "                b\"\\r\\n\\r\\n\", max_bytes=64 * 1024\n", '16 KiB header bound raised to 64 KiB')
 # ---- C11 / C12
-mut('m-c11-no-compress-lock', 'C11', 'lomond/websocket.py', "            with self.state.compress_lock:\n                _payload = self.state.compression.compress(payload)\n                self.session.send_compressed(Opcode.TEXT, _payload)\n",
-    "            _payload = self.state.compression.compress(payload)\n            self.session.send_compressed(Opcode.TEXT, _payload)\n", 'compress+write of text no longer atomic')
+mut('m-c11-no-compress-lock', 'C11', 'lomond/websocket.py', "            with state.compress_lock:\n                _payload = state.compression.compress(payload)\n",
+    "            if True:\n                _payload = state.compression.compress(payload)\n", 'compress+write of text no longer atomic')
 mut('m-c11-write-lock-removed', 'C11', 'lomond/session.py', "        with self._lock:\n            if self._sock is None:\n                log.debug('WebSocket unavailable; data not sent')\n",
     "        if True:\n            if self._sock is None:\n                log.debug('WebSocket unavailable; data not sent')\n", 'write lock removed: frames can be torn')
 mut('m-c12-flag-after-write', 'C12', 'lomond/session.py', "            if closing:\n", "            if closing and False:\n", 'closing flag no longer set under the write lock (original check-then-act race)')
 # ---- C13
 mut('m-c13-finally-close-removed', 'C13', 'lomond/session.py', "            # A no-op unless the consumer abandoned the generator\n            self._close_socket()\n", "", 'socket not closed when the generator is abandoned outside feed()')
-mut('m-c13-generatorexit-handler-removed', 'C13', 'lomond/websocket.py', "            log.warning('disconnecting websocket')\n            self.on_disconnect()\n", "            log.warning('disconnecting websocket')\n", 'GeneratorExit handler no longer closes the session (still covered by run() finally after the fix: may survive)')
+mut('m-c13-generatorexit-handler-removed', 'C13', 'lomond/websocket.py', "            if self.state is state:\n                self.on_disconnect()\n", "            if self.state is state:\n                pass\n", 'GeneratorExit handler no longer closes the session (still covered by run() finally after the fix: may survive)')
 # ---- C14
 mut('m-c14-pong-after-yield', 'C14', 'lomond/session.py', "                            self._on_event(event, auto_pong)\n                            yield event\n", "                            if event.name != 'ping':\n                                self._on_event(event, auto_pong)\n                            yield event\n                            if event.name == 'ping':\n                                self._on_event(event, auto_pong)\n",
     'automatic pong written after the Ping event was handed to the application')
@@ -105,7 +105,7 @@ mut('m-c14-pong-truncated', 'C14', 'lomond/session.py', "            self.websoc
 # ---- C15
 mut('m-c15-ping-timeout-ge', 'C15', 'lomond/session.py', "            if time_since_last_pong > ping_timeout:\n", "            if time_since_last_pong >= ping_timeout - 0.5:\n", 'Unresponsive up to 0.5 s early')
 mut('m-c15-close-timeout-from-ready', 'C15', 'lomond/session.py', "            if session_time >= sent_close_time + close_timeout:\n", "            if session_time >= close_timeout:\n", 'close timeout measured from Ready instead of from the Close')
-mut('m-c15-next-ping-floor', 'C15', 'lomond/session.py', "                math.ceil(session_time / ping_rate) * ping_rate\n", "                (math.floor(session_time / ping_rate) + 2) * ping_rate\n", 'next ping scheduled one period too late')
+mut('m-c15-next-ping-floor', 'C15', 'lomond/session.py', "            next_ping = math.ceil(session_time / ping_rate) * ping_rate\n", "            next_ping = (math.floor(session_time / ping_rate) + 2) * ping_rate\n", 'next ping scheduled one period too late')
 mut('m-c15-last-pong-not-updated', 'C15', 'lomond/session.py', "        self._last_pong = self.session_time\n", "        self._last_pong = self._last_pong or self.session_time\n", 'only the first Pong is recorded')
 # ---- C16
 mut('m-c16-retries-reset-moved', 'C16', 'lomond/persist.py', "            if event.name == 'ready':\n                # The server accepted the WS upgrade.\n                retries = 0\n", "            if event.name == 'connected':\n                # The server accepted the WS upgrade.\n                retries = 0\n", 'back-off resets on Connected instead of Ready')
@@ -122,9 +122,38 @@ mut('m-c19-authority', 'C19', 'lomond/proxy.py', "        'CONNECT {}:{} HTTP/1.
 mut('m-c19-mapping', 'C19', 'lomond/session.py', "            'https' if self.websocket.is_secure else 'http'\n        )\n", "            'https' if self.websocket.is_secure else 'http'\n        ) or self.websocket.proxies.get('https')\n", 'ws falls back to the https proxy entry')
 
 
+REVERTS = {   # fix commit -> (finding, property whose check must report its reversal)
+    '4668838': ('F1', 'C04'), 'ed21e53': ('F2', 'C05'), '49b043d': ('F9', 'C03'), '9d71d60': ('F3', 'C06'), '62d18e0': ('F4', 'C09'),
+    '7ad4e08': ('F4b', 'C09'), '5597ad8': ('F8', 'C13'), '6567e42': ('F6', 'C11'), '39fd41f': ('F7', 'C12'), 'ccd7e50': ('F10', 'C12'),
+    'b00339c': ('F11', 'C17'), 'ab4d83b': ('F12', 'C06'), 'ccdc7b1': ('F13', 'C06'), 'b0fb456': ('F14', 'C10'), 'c2b6c6b': ('F15', 'C10'),
+    'fbe7813': ('F16', 'C09'), 'ce9bb33': ('F17', 'C15'), '01ca613': ('F18', 'C08'), '24dd2c9': ('F19', 'C06'), '5562bdb': ('F20', 'C11'),
+    '032a03a': ('F21', 'C05'), '6846ff6': ('F22', 'C02'), '3faf252': ('F23', 'C14'), '814a211': ('F24', 'C13'), 'ab372e5': ('F25', 'C10'),
+    '99089b5': ('F26', 'C19'),
+}
+
+
+def reverts(outdir):
+    """the reversal of every repair made to /repo is a mutant: the finding must come back"""
+    import subprocess
+    n = 0
+    for c, (fid, prop) in REVERTS.items():
+        diff = subprocess.run(['git', '-C', '/repo', 'diff', c, c + '^', '--', 'lomond'], stdout=subprocess.PIPE).stdout.decode()
+        if not diff.strip():
+            print('SKIP revert of %s: empty' % c)
+            continue
+        d = os.path.join(outdir, 'm-revert-%s-%s' % (fid.lower(), c))
+        os.makedirs(d, exist_ok=True)
+        open(os.path.join(d, 'patch.diff'), 'w').write(diff)
+        json.dump(dict(property=prop, origin='reversal of fix commit %s (%s)' % (c, fid), why='the repaired defect %s is back' % fid),
+                  open(os.path.join(d, 'meta.json'), 'w'), indent=1)
+        n += 1
+    print('%d reversal mutants written' % n)
+
+
 def main():
     outdir = os.path.join(ROOT, 'mutants')
     os.makedirs(outdir, exist_ok=True)
+    reverts(outdir)
     n = 0
     for m in M:
         src = open(os.path.join(REPO, m['path'])).read()
